@@ -372,4 +372,398 @@ Proof.
       * intros E. destruct (forced_send_r _ _ _ _ _ _ HR1 Hp1 E) as [HR2 F2]. split; [exact HR2|exact (Fr1_trans _ _ _ F1 F2)].
 Qed.
 
+(* ---------- Accept::accept ---------- *)
+Lemma LOk_pt p s pt pt' nw l : (pt <> None -> pt' <> None) -> LOk p s pt nw l -> LOk p s pt' nw l.
+Proof.
+  intros Hpt (H1 & H2 & H3 & H4). unfold LOk. split; [exact H1|]. split; [|split; assumption].
+  intros d Hd. destruct (H2 d Hd) as (A & B & C). auto.
+Qed.
+
+Lemma set_timeout_spec st d :
+  (exists t, ptimeout (set_timeout st d) = Some t /\ (t <= d)%N /\ (forall t0, ptimeout st = Some t0 -> (t <= t0)%N)) /\
+  trace (set_timeout st d) = trace st /\ lsts (set_timeout st d) = lsts st /\ paused (set_timeout st d) = paused st /\
+  stopped (set_timeout st d) = stopped st /\ now (set_timeout st d) = now st /\
+  wq (set_timeout st d) = wq st /\ wpend (set_timeout st d) = wpend st /\ av (set_timeout st d) = av st /\
+  err (set_timeout st d) = err st.
+Proof.
+  unfold set_timeout. destruct (ptimeout st) as [t|] eqn:Et.
+  - destruct (N.ltb_spec d t).
+    + split; [|repeat split]. exists d. cbn. split; [reflexivity|]. split; [lia|]. intros t0 E; injection E as <-. lia.
+    + split; [|repeat split]. exists t. split; [exact Et|]. split; [lia|]. intros t0 E; injection E as <-. lia.
+  - split; [|repeat split]. exists d. cbn. split; [reflexivity|]. split; [lia|]. discriminate.
+Qed.
+
+Lemma Fr1_upd_lst st tok l : Fr1 st (upd_lst st tok l).
+Proof. unfold Fr1. cbn. rewrite length_replace_nth. repeat split. apply WQrel_same; reflexivity. Qed.
+
+Lemma Fr1_set_timeout st d : Fr1 st (set_timeout st d).
+Proof.
+  destruct (set_timeout_spec st d) as (_ & _ & A & B & C & D & E & F & _). apply Fr1_same; assumption.
+Qed.
+
+(* the non-transient error branch: deregister, deadline now + 500, poll timeout <= 510 *)
+Lemma RInv_backoff st tok l l2 :
+  nth_error (lsts st) tok = Some l -> RInv st -> paused st = false ->
+  l_reg l2 = false -> l_to l2 = Some (now st + 500)%N -> l_linked l2 = l_linked l ->
+  RInv (set_timeout (upd_lst st tok l2) 510%N).
+Proof.
+  intros Hn (H1 & H2 & H3) Hp Hr Ht Hl.
+  destruct (set_timeout_spec (upd_lst st tok l2) 510%N) as ((t & Et & Ht510 & Hmin) & A & B & C & D & E & _).
+  unfold RInv. rewrite A, B, C, D, E, Et. cbn [trace lsts paused stopped now upd_lst set_lsts].
+  split; [exact H1|]. split; [intros t0 E0; injection E0 as <-; exact Ht510|].
+  apply Forall_replace_nth.
+  - eapply Forall_impl; [|exact H3]. intros a. apply LOk_pt. discriminate.
+  - pose proof (Forall_nth_error _ _ _ _ H3 Hn) as (L1 & _). unfold LOk. rewrite Hr, Ht, Hl, Hp.
+    split; [exact L1|]. split; [|split; [discriminate|discriminate]].
+    intros d0 E0; injection E0 as <-. split; [reflexivity|]. split; [lia|discriminate].
+Qed.
+
+Lemma accept_loop_r : forall fuel st tok ys st' ys',
+  RInv st -> paused st = false -> accept_loop L fuel st tok ys = (st', ys') -> RInv st' /\ Fr1 st st'.
+Proof.
+  induction fuel as [|f IH]; intros st tok ys st' ys' HR Hp; cbn [accept_loop].
+  - intros E; injection E as <- <-. split; [now apply RInv_set_err|apply Fr1_set_err].
+  - destruct (err st); [intros E; injection E as <- <-; split; [exact HR|apply Fr1_refl]|].
+    destruct (available (av st)); [|intros E; injection E as <- <-; split; [exact HR|apply Fr1_refl]].
+    destruct (nth_error (lsts st) tok) as [l|] eqn:El;
+      [|intros E; injection E as <- <-; split; [now apply RInv_set_err|apply Fr1_set_err]].
+    destruct (l_inject l) as [|k rest].
+    + destruct (l_backlog l) as [|c rest]; [intros E; injection E as <- <-; split; [exact HR|apply Fr1_refl]|].
+      set (st1 := upd_lst st tok _).
+      assert (HR1 : RInv st1) by (eapply RInv_upd_lst_key; eauto; reflexivity).
+      assert (F1 : Fr1 st st1) by apply Fr1_upd_lst.
+      destruct (accept_one L (accept_one_fuel st1) st1 _ ys) as [st2 ys2] eqn:Ea.
+      destruct (accept_one_r _ _ _ _ _ _ HR1 Hp Ea) as [HR2 F2].
+      pose proof (paused_Fr1 _ _ F2) as Hp2. change (paused st1) with (paused st) in Hp2. rewrite Hp in Hp2.
+      intros E. destruct (IH _ _ _ _ _ HR2 Hp2 E) as [HR3 F3].
+      split; [exact HR3|exact (Fr1_trans _ _ _ F1 (Fr1_trans _ _ _ F2 F3))].
+    + destruct k.
+      * intros E; injection E as <- <-. split; [eapply RInv_upd_lst_key; eauto; reflexivity|apply Fr1_upd_lst].
+      * set (st1 := upd_lst st tok _).
+        assert (HR1 : RInv st1) by (eapply RInv_upd_lst_key; eauto; reflexivity).
+        intros E. destruct (IH _ _ _ _ _ HR1 Hp E) as [HR3 F3].
+        split; [exact HR3|exact (Fr1_trans _ _ _ (Fr1_upd_lst _ _ _) F3)].
+      * intros E; injection E as <- <-. split.
+        -- eapply RInv_backoff; eauto; reflexivity.
+        -- exact (Fr1_trans _ _ _ (Fr1_upd_lst _ _ _) (Fr1_set_timeout _ _)).
+Qed.
+
+Lemma accept_r st tok ys st' ys' :
+  RInv st -> accept L st tok ys = (st', ys') -> RInv st' /\ Fr1 st st'.
+Proof.
+  intros HR. unfold accept. destruct (paused st) eqn:Hp.
+  - intros E; injection E as <- <-. split; [exact HR|apply Fr1_refl].
+  - intros E. eapply accept_loop_r; eauto.
+Qed.
+
+Lemma accept_toks_r toks : forall st ys st' ys',
+  RInv st -> accept_toks L st toks ys = (st', ys') -> RInv st' /\ Fr1 st st'.
+Proof.
+  induction toks as [|t r IH]; intros st ys st' ys' HR; cbn [accept_toks].
+  - intros E; injection E as <- <-. split; [exact HR|apply Fr1_refl].
+  - destruct (accept L st t ys) as [s1 y1] eqn:Ea. destruct (accept_r _ _ _ _ _ HR Ea) as [HR1 F1].
+    intros E. destruct (IH _ _ _ _ HR1 E) as [HR2 F2]. split; [exact HR2|exact (Fr1_trans _ _ _ F1 F2)].
+Qed.
+
+Lemma accept_all_r st ys st' ys' :
+  RInv st -> accept_all L st ys = (st', ys') -> RInv st' /\ Fr1 st st'.
+Proof. unfold accept_all. apply accept_toks_r. Qed.
+
+(* ---------- Pause / Resume / Stop ---------- *)
+Lemma RInv_pause st : RInv st -> paused st = false -> RInv (emit (deregister_all (set_paused st true)) EvPauseOn).
+Proof.
+  intros (H1 & H2 & H3) Hp. unfold RInv. cbn. split; [eapply TrOk_on; eauto|]. split; [exact H2|].
+  apply Forall_map. eapply Forall_impl; [|exact H3]. intros l (A & B & C & D).
+  destruct (l_to l) as [d|] eqn:Et.
+  - destruct (B d eq_refl) as (B1 & _). unfold LOk. cbn. rewrite A, B1. repeat split; auto; discriminate.
+  - unfold LOk. cbn. rewrite A, Et. repeat split; auto; discriminate.
+Qed.
+
+Lemma RInv_resume st : RInv st -> paused st = true ->
+  RInv (emit (set_lsts (set_paused st false) (map register (lsts st))) EvPauseOff).
+Proof.
+  intros (H1 & H2 & H3) Hp. unfold RInv. cbn. split; [eapply TrOk_off; eauto|]. split; [exact H2|].
+  apply Forall_map. eapply Forall_impl; [|exact H3]. intros l (A & B & C & D).
+  destruct (C Hp) as [C1 C2]. unfold register. rewrite C1. unfold LOk. cbn. rewrite A, C2.
+  repeat split; auto; discriminate.
+Qed.
+
+Lemma RInv_stop st : RInv st -> RInv (emit (set_stopped (if paused st then st else deregister_all st) true) EvExit).
+Proof.
+  intros (H1 & H2 & H3). destruct (paused st) eqn:Hp; unfold RInv; cbn; rewrite Hp.
+  - split; [apply TrOk_quiet; [reflexivity|exact H1]|]. split; [exact H2|].
+    eapply Forall_impl; [|exact H3]. intros l (A & B & C & D). unfold LOk.
+    split; [exact A|]. split; [exact B|]. split; [exact C|]. discriminate.
+  - split; [apply TrOk_quiet; [reflexivity|exact H1]|]. split; [exact H2|].
+    apply Forall_map. eapply Forall_impl; [|exact H3]. intros l (A & B & C & D).
+    destruct (l_to l) as [d|] eqn:Et; unfold LOk; cbn; rewrite A, ?Et; repeat split; auto; discriminate.
+Qed.
+
+(* ---------- Accept::handle_waker ---------- *)
+Definition Fr2 (st st' : state) : Prop := now st' = now st /\ length (lsts st') = length (lsts st).
+
+Lemma Fr2_refl st : Fr2 st st.
+Proof. split; reflexivity. Qed.
+Lemma Fr2_trans s0 s1 s2 : Fr2 s0 s1 -> Fr2 s1 s2 -> Fr2 s0 s2.
+Proof. intros [A1 A2] [B1 B2]. split; congruence. Qed.
+Lemma Fr2_of_Fr1 st st' : Fr1 st st' -> Fr2 st st'.
+Proof. intros (_ & _ & A & _ & B). split; assumption. Qed.
+
+Lemma handle_waker_r : forall fuel st ys st' ys',
+  RInv st -> handle_waker L fuel st ys = (st', ys') -> RInv st' /\ Fr2 st st'.
+Proof.
+  induction fuel as [|f IH]; intros st ys st' ys' HR; cbn [handle_waker].
+  - intros E; injection E as <- <-. split; [now apply RInv_set_err|split; reflexivity].
+  - destruct (err st); [intros E; injection E as <- <-; split; [exact HR|apply Fr2_refl]|].
+    destruct (wq st) as [|i rest]; [intros E; injection E as <- <-; split; [exact HR|apply Fr2_refl]|].
+    set (st0 := set_wq st rest (wpend st)).
+    assert (HR0 : RInv st0) by (eapply RInv_core; [|exact HR]; reflexivity).
+    assert (F0 : Fr2 st st0) by (split; reflexivity).
+    destruct i as [idx|g| | |].
+    + set (st1 := if existsb _ (handles st0) then av_set st0 idx true else st0).
+      assert (H1 : RInv st1 /\ Fr2 st st1).
+      { unfold st1. destruct (existsb _ (handles st0)); [|split; assumption].
+        split; [now apply RInv_av_set|]. eapply Fr2_trans; [exact F0|apply Fr2_of_Fr1, Fr1_av_set]. }
+      destruct H1 as [HR1 F1]. destruct (paused st1).
+      * intros E. destruct (IH _ _ _ _ HR1 E) as [HR2 F2]. split; [exact HR2|exact (Fr2_trans _ _ _ F1 F2)].
+      * destruct (accept_all L st1 ys) as [s2 y2] eqn:Ea. destruct (accept_all_r _ _ _ _ HR1 Ea) as [HR2 F2].
+        intros E. destruct (IH _ _ _ _ HR2 E) as [HR3 F3].
+        split; [exact HR3|exact (Fr2_trans _ _ _ F1 (Fr2_trans _ _ _ (Fr2_of_Fr1 _ _ F2) F3))].
+    + destruct (nth_error (ws st0) g) as [w|];
+        [|intros E; injection E as <- <-; split; [now apply RInv_set_err|exact F0]].
+      set (st1 := set_handles (av_set st0 (w_idx w) true) (handles st0 ++ [g])).
+      assert (H1 : RInv st1 /\ Fr2 st st1).
+      { unfold st1. split; [eapply RInv_core; [|apply RInv_av_set; exact HR0]; reflexivity|].
+        eapply Fr2_trans; [exact F0|]. eapply Fr2_trans; [apply Fr2_of_Fr1, Fr1_av_set|split; reflexivity]. }
+      destruct H1 as [HR1 F1]. destruct (paused st1).
+      * intros E. destruct (IH _ _ _ _ HR1 E) as [HR2 F2]. split; [exact HR2|exact (Fr2_trans _ _ _ F1 F2)].
+      * destruct (accept_all L st1 ys) as [s2 y2] eqn:Ea. destruct (accept_all_r _ _ _ _ HR1 Ea) as [HR2 F2].
+        intros E. destruct (IH _ _ _ _ HR2 E) as [HR3 F3].
+        split; [exact HR3|exact (Fr2_trans _ _ _ F1 (Fr2_trans _ _ _ (Fr2_of_Fr1 _ _ F2) F3))].
+    + set (st1 := if paused st0 then st0 else emit (deregister_all (set_paused st0 true)) EvPauseOn).
+      assert (H1 : RInv st1 /\ Fr2 st st1).
+      { unfold st1. destruct (paused st0) eqn:Hp0; [split; assumption|].
+        split; [now apply RInv_pause|]. split; [reflexivity|]. cbn. now rewrite map_length. }
+      destruct H1 as [HR1 F1].
+      intros E. destruct (IH _ _ _ _ HR1 E) as [HR2 F2]. split; [exact HR2|exact (Fr2_trans _ _ _ F1 F2)].
+    + destruct (paused st0) eqn:Hp0.
+      * set (st1 := emit (set_lsts (set_paused st0 false) (map register (lsts st0))) EvPauseOff).
+        assert (HR1 : RInv st1) by now apply RInv_resume.
+        assert (F1 : Fr2 st st1) by (split; [reflexivity|]; cbn; now rewrite map_length).
+        destruct (accept_all L st1 ys) as [s2 y2] eqn:Ea. destruct (accept_all_r _ _ _ _ HR1 Ea) as [HR2 F2].
+        intros E. destruct (IH _ _ _ _ HR2 E) as [HR3 F3].
+        split; [exact HR3|exact (Fr2_trans _ _ _ F1 (Fr2_trans _ _ _ (Fr2_of_Fr1 _ _ F2) F3))].
+      * intros E. destruct (IH _ _ _ _ HR0 E) as [HR2 F2]. split; [exact HR2|exact (Fr2_trans _ _ _ F0 F2)].
+    + intros E; injection E as <- <-. change (paused st) with (paused st0). split; [apply RInv_stop; exact HR0|].
+      split; [destruct (paused st0); reflexivity|]. cbn. destruct (paused st); cbn; [reflexivity|now rewrite map_length].
+Qed.
+
+(* ---------- Accept::process_timeout ---------- *)
+Definition pto_l (p : bool) (nw : N) (l : lst) : lst :=
+  match l_to l with
+  | None => l
+  | Some inst => if (nw <? inst)%N then l else if p then set_l_to l None else register (set_l_to l None)
+  end.
+
+Definition pto_t (nw : N) (pt : option N) (l : lst) : option N :=
+  match l_to l with
+  | None => pt
+  | Some inst =>
+      if (nw <? inst)%N then
+        let d := (inst - nw)%N in
+        match pt with Some t => if (d <? t)%N then Some d else Some t | None => Some d end
+      else pt
+  end.
+
+Lemma pto_fold p nw ls : forall done pt,
+  fold_left (process_one_timeout p nw) ls (done, pt) = (done ++ map (pto_l p nw) ls, fold_left (pto_t nw) ls pt).
+Proof.
+  induction ls as [|l ls IH]; intros done pt; cbn [fold_left map]; [now rewrite app_nil_r|].
+  unfold process_one_timeout at 2. unfold pto_l at 1, pto_t at 2.
+  destruct (l_to l) as [inst|]; [destruct (N.ltb nw inst); [|destruct p]|]; rewrite IH, <- app_assoc; reflexivity.
+Qed.
+
+Lemma process_timeout_eq st :
+  process_timeout st =
+  match ptimeout st with
+  | None => st
+  | Some _ => set_ptimeout (set_lsts st (map (pto_l (paused st) (now st)) (lsts st)))
+                           (fold_left (pto_t (now st)) (lsts st) None)
+  end.
+Proof. unfold process_timeout. destruct (ptimeout st); [|reflexivity]. rewrite pto_fold. reflexivity. Qed.
+
+(* the new poll timeout: at most every remaining back-off, and bounded by B when every deadline is within B *)
+Lemma pto_t_some nw t0 l : exists t1, pto_t nw (Some t0) l = Some t1 /\ (t1 <= t0)%N.
+Proof.
+  unfold pto_t. destruct (l_to l) as [inst|]; [destruct (N.ltb nw inst)|]; try (exists t0; split; [reflexivity|lia]).
+  destruct (N.ltb_spec (inst - nw) t0); [exists (inst - nw)%N|exists t0]; split; try reflexivity; lia.
+Qed.
+
+Lemma pto_t_cover nw pt l d : l_to l = Some d -> (nw < d)%N ->
+  exists t1, pto_t nw pt l = Some t1 /\ (t1 <= d - nw)%N.
+Proof.
+  intros Hd Hlt. unfold pto_t. rewrite Hd. apply N.ltb_lt in Hlt. rewrite Hlt.
+  destruct pt as [t0|]; [|exists (d - nw)%N; split; [reflexivity|lia]].
+  destruct (N.ltb_spec (d - nw) t0); [exists (d - nw)%N|exists t0]; split; try reflexivity; lia.
+Qed.
+
+Lemma pto_t_bound nw pt l B :
+  (forall t0, pt = Some t0 -> (t0 <= B)%N) -> (forall d, l_to l = Some d -> (d <= nw + B)%N) ->
+  forall t1, pto_t nw pt l = Some t1 -> (t1 <= B)%N.
+Proof.
+  intros Hpt Hl t1. unfold pto_t. destruct (l_to l) as [inst|]; [|apply Hpt].
+  specialize (Hl inst eq_refl). destruct (N.ltb_spec nw inst); [|apply Hpt].
+  destruct pt as [t0|].
+  - destruct (N.ltb_spec (inst - nw) t0); intros E; injection E as <-; [lia|now apply Hpt].
+  - intros E; injection E as <-. lia.
+Qed.
+
+Lemma pto_fold_mono nw ls : forall t0, exists t, fold_left (pto_t nw) ls (Some t0) = Some t /\ (t <= t0)%N.
+Proof.
+  induction ls as [|l ls IH]; intros t0; cbn [fold_left]; [exists t0; split; [reflexivity|lia]|].
+  destruct (pto_t_some nw t0 l) as (t1 & E1 & H1). rewrite E1. destruct (IH t1) as (t & E & H). exists t. split; [exact E|lia].
+Qed.
+
+Lemma pto_fold_cover nw ls : forall pt l d, In l ls -> l_to l = Some d -> (nw < d)%N ->
+  exists t, fold_left (pto_t nw) ls pt = Some t /\ (t <= d - nw)%N.
+Proof.
+  induction ls as [|x ls IH]; intros pt l d Hin Hd Hlt; [destruct Hin|]. cbn [fold_left].
+  destruct Hin as [->|Hin]; [|eapply IH; eauto].
+  destruct (pto_t_cover nw pt l d Hd Hlt) as (t1 & E1 & H1). rewrite E1.
+  destruct (pto_fold_mono nw ls t1) as (t & E & H). exists t. split; [exact E|lia].
+Qed.
+
+Lemma pto_fold_bound nw ls B : forall pt,
+  (forall t0, pt = Some t0 -> (t0 <= B)%N) -> (forall l d, In l ls -> l_to l = Some d -> (d <= nw + B)%N) ->
+  forall t, fold_left (pto_t nw) ls pt = Some t -> (t <= B)%N.
+Proof.
+  induction ls as [|x ls IH]; intros pt Hpt Hl t; cbn [fold_left]; [apply Hpt|].
+  apply IH.
+  - apply pto_t_bound; [exact Hpt|]. intros d Hd. eapply Hl; [now left|exact Hd].
+  - intros l d Hin. apply Hl. now right.
+Qed.
+
+Lemma process_timeout_r st : RInv st -> RInv (process_timeout st).
+Proof.
+  intros HR. rewrite process_timeout_eq. destruct (ptimeout st) as [t0|] eqn:Ept; [|exact HR].
+  destruct HR as (H1 & H2 & H3). unfold RInv. cbn. split; [exact H1|]. split.
+  - apply pto_fold_bound; [discriminate|]. intros l d Hin Hd.
+    rewrite Forall_forall in H3. destruct (H3 l Hin) as (_ & B & _). destruct (B d Hd) as (_ & B2 & _). lia.
+  - apply Forall_map. rewrite Forall_forall in H3 |- *. intros l Hin. destruct (H3 l Hin) as (A & B & C & D).
+    unfold pto_l. destruct (l_to l) as [inst|] eqn:Et.
+    + destruct (B inst eq_refl) as (B1 & B2 & _). destruct (N.ltb_spec (now st) inst) as [Hlt|Hge].
+      * unfold LOk. rewrite Et. split; [exact A|]. split; [|split; [exact C|discriminate]].
+        intros d E; injection E as <-. split; [exact B1|]. split; [exact B2|].
+        destruct (pto_fold_cover (now st) (lsts st) None l inst Hin Et Hlt) as (t & E & _). rewrite E. discriminate.
+      * destruct (paused st) eqn:Hp.
+        -- unfold LOk. cbn. rewrite A, B1. repeat split; auto; discriminate.
+        -- unfold register. cbn [l_reg set_l_to]. rewrite B1. unfold LOk. cbn. rewrite A. repeat split; auto; discriminate.
+    + unfold LOk. rewrite Et. split; [exact A|]. split; [discriminate|]. split; [exact C|exact D].
+Qed.
+
+(* after process_timeout the poll timeout ends no later than every pending deadline: the blocking poll that
+   follows returns in time for the listener to be examined at its deadline *)
+Lemma process_timeout_wakeup st l d :
+  RInv st -> In l (lsts (process_timeout st)) -> l_to l = Some d ->
+  exists t, ptimeout (process_timeout st) = Some t /\ (now st + t <= d)%N.
+Proof.
+  intros (H1 & H2 & H3). rewrite process_timeout_eq. destruct (ptimeout st) as [t0|] eqn:Ept.
+  - cbn. intros Hin Hd. apply in_map_iff in Hin as (l0 & <- & Hin0). unfold pto_l in Hd.
+    destruct (l_to l0) as [inst|] eqn:Et; [|congruence].
+    destruct (N.ltb_spec (now st) inst) as [Hlt|Hge].
+    + rewrite Et in Hd. injection Hd as <-.
+      destruct (pto_fold_cover (now st) (lsts st) None l0 inst Hin0 Et Hlt) as (t & E & Hle). exists t. split; [exact E|lia].
+    + destruct (paused st); [cbn in Hd; discriminate|]. unfold register in Hd. destruct (l_reg _); cbn in Hd; discriminate.
+  - intros Hin Hd. rewrite Forall_forall in H3. destruct (H3 l Hin) as (_ & B & _). destruct (B d Hd) as (_ & _ & B3).
+    congruence.
+Qed.
+
+(* ---------- every operation, every run ---------- *)
+Lemma RInv_advance st ms : RInv st -> RInv (set_now st (now st + ms)%N).
+Proof.
+  intros (H1 & H2 & H3). unfold RInv. cbn. split; [exact H1|]. split; [exact H2|].
+  eapply Forall_impl; [|exact H3]. intros l (A & B & C & D). unfold LOk. split; [exact A|]. split; [|split; assumption].
+  intros d Hd. destruct (B d Hd) as (B1 & B2 & B3). split; [exact B1|]. split; [lia|exact B3].
+Qed.
+
+Lemma RInv_turn_start st toks wk :
+  RInv st -> RInv (emit (set_wq (set_lsts st (clear_edges (lsts st))) (wq st) false) (EvReady toks wk)).
+Proof.
+  intros (H1 & H2 & H3). unfold RInv. cbn. split; [apply TrOk_quiet; [reflexivity|exact H1]|]. split; [exact H2|].
+  unfold clear_edges. apply Forall_map. eapply Forall_impl; [|exact H3]. intros l. apply LOk_key. reflexivity.
+Qed.
+
+Lemma step_r st o : RInv st -> RInv (step L st o).
+Proof.
+  intros HR. destruct o as [e|tok ys|ys| |ys|ms]; cbn [step].
+  - apply env_step_r; exact HR.
+  - destruct (live st); [|exact HR]. destruct (accept L st tok ys) as [s1 y1] eqn:Ea.
+    exact (proj1 (accept_r _ _ _ _ _ HR Ea)).
+  - destruct (live st); [|exact HR]. destruct (handle_waker L (handle_waker_fuel st ys) st ys) as [s1 y1] eqn:Eh.
+    exact (proj1 (handle_waker_r _ _ _ _ _ HR Eh)).
+  - destruct (live st); [|exact HR]. now apply process_timeout_r.
+  - destruct (live st); [|exact HR].
+    pose proof (RInv_turn_start st (ready_toks 0 (lsts st)) (wpend st) HR) as HR0.
+    set (st0 := emit _ _) in *.
+    destruct (accept_toks L st0 (ready_toks 0 (lsts st)) ys) as [s1 y1] eqn:Ea.
+    pose proof (proj1 (accept_toks_r _ _ _ _ _ HR0 Ea)) as HR1.
+    destruct (wpend st).
+    + destruct (handle_waker L (handle_waker_fuel s1 y1) s1 y1) as [s2 y2] eqn:Eh.
+      pose proof (proj1 (handle_waker_r _ _ _ _ _ HR1 Eh)) as HR2.
+      destruct (live s2); [now apply process_timeout_r|exact HR2].
+    + destruct (live s1); [now apply process_timeout_r|exact HR1].
+  - now apply RInv_advance.
+Qed.
+
+Lemma run_r os : forall st, RInv st -> RInv (run L st os).
+Proof. induction os as [|o os IH]; intros st HR; cbn [run fold_left]; [exact HR|]. apply IH, step_r, HR. Qed.
+
+Lemma init_r W kinds : RInv (init W kinds).
+Proof.
+  unfold RInv, init. cbn. split; [split; reflexivity|]. split; [discriminate|].
+  apply Forall_map. apply Forall_forall. intros k _. unfold LOk, mk_lst. cbn. repeat split; auto; discriminate.
+Qed.
+
+Theorem reachable_r W kinds os : RInv (run L (init W kinds) os).
+Proof. apply run_r, init_r. Qed.
+
+(* ---------- C05_pause_safe and the registration part of C05_no_strand, for every script ---------- *)
+Lemma pause_safe_all W kinds os :
+  let st := run L (init W kinds) os in
+  (forall pre mid d post, is_dispatch d = true ->
+     rev (trace st) = pre ++ EvPauseOn :: mid ++ d :: post -> In EvPauseOff mid) /\
+  pstate (trace st) = paused st /\
+  (paused st = true -> forall l, In l (lsts st) -> l_reg l = false /\ l_to l = None).
+Proof.
+  intros st. destruct (reachable_r W kinds os) as ((T1 & T2) & _ & H3). fold st in T1, T2, H3.
+  split; [intros pre mid d post; now apply psafe_chrono|]. split; [exact T1|].
+  intros Hp l Hin. rewrite Forall_forall in H3. destruct (H3 l Hin) as (_ & _ & C & _). auto.
+Qed.
+
+Lemma registration_all W kinds os :
+  let st := run L (init W kinds) os in
+  forall l, In l (lsts st) ->
+    l_linked l = true /\
+    (forall d, l_to l = Some d -> l_reg l = false) /\
+    (stopped st = false ->
+       l_reg l = true \/
+       (exists d t, l_to l = Some d /\ (d <= now st + 500)%N /\ ptimeout st = Some t /\ (t <= 510)%N) \/
+       (paused st = true /\ l_to l = None)).
+Proof.
+  intros st l Hin. destruct (reachable_r W kinds os) as (_ & H2 & H3). fold st in H2, H3.
+  rewrite Forall_forall in H3. destruct (H3 l Hin) as (A & B & C & D).
+  split; [exact A|]. split; [intros d Hd; apply (B d Hd)|]. intros Hs.
+  destruct (l_to l) as [d|] eqn:Et.
+  - right; left. destruct (B d eq_refl) as (_ & B2 & B3). destruct (ptimeout st) as [t|] eqn:Ept; [|congruence].
+    exists d, t. repeat split; auto.
+  - destruct (paused st) eqn:Hp; [right; right; split; reflexivity|left; now apply D].
+Qed.
+
+(* the next blocking poll is armed to return no later than every pending deadline *)
+Lemma wakeup_after_timeout W kinds os :
+  let st := run L (init W kinds) os in
+  forall l d, In l (lsts (process_timeout st)) -> l_to l = Some d ->
+    exists t, ptimeout (process_timeout st) = Some t /\ (now st + t <= d)%N.
+Proof. intros st l d. apply process_timeout_wakeup, reachable_r. Qed.
+
 End All.
